@@ -218,6 +218,23 @@ class Effects:
                                 continue
                             k = "buffer-store" if kind == VIEW else "item-store"
                             s.writes.append(Write(root, k, n, ast.unparse(el)[:80], self.enclosing_tests(f.node, n), ag))
+                    elif isinstance(el, ast.Name) and isinstance(n, ast.AugAssign):
+                        # `x = operand["key"]` / `x = operand[a:b]` / `x = operand.values` followed by `x op= ...`: for an array this is an
+                        # in-place update of the operand's data, not a rebinding (element reads `operand[i]` are scalars and excluded)
+                        for d in self._own(f.node):
+                            if not (isinstance(d, ast.Assign) and any(isinstance(t_, ast.Name) and t_.id == el.id for t_ in d.targets)):
+                                continue
+                            v = d.value
+                            sl = v.slice if isinstance(v, ast.Subscript) else None
+                            arrayish = (isinstance(sl, ast.Slice) or (isinstance(sl, ast.Constant) and isinstance(sl.value, str))
+                                        or (isinstance(sl, ast.Tuple) and any(isinstance(x, ast.Slice) for x in sl.elts))
+                                        or (isinstance(v, ast.Attribute) and v.attr in ("values", "data")))
+                            if not arrayish or getattr(d, "lineno", 0) > getattr(n, "lineno", 0):
+                                continue
+                            for root, kind, ag in self._alias_entries(v, aliases, f, recv_cls):
+                                if kind != FRESH:
+                                    s.writes.append(Write(root, "buffer-store", n, f"{ast.unparse(d)[:50]}; {ast.unparse(n)[:40]}",
+                                                          self.enclosing_tests(f.node, n), ag))
                     elif isinstance(el, ast.Attribute):
                         for root, kind, ag in self._alias_entries(el.value, aliases, f, recv_cls):
                             if kind in (SAME, PART) and not (f.name == "__init__" and root == "self"):
